@@ -52,7 +52,7 @@ use crate::m_line::{pts_digest, STARTS};
 use embedded_graphics::{
     pixelcolor::BinaryColor,
     prelude::*,
-    primitives::{Line, PrimitiveStyle},
+    primitives::{Line, Polyline, PrimitiveStyle},
 };
 use std::collections::HashSet;
 
@@ -130,7 +130,12 @@ impl Module for M {
          (the non-overflowing range of thickness_threshold); non-trivial = width >= 2; distinct = distinct op text"
     }
 
-    fn generate(&self, _pid: &str, tier: Tier, rng: &mut Rng, emit: &mut dyn FnMut(String)) {
+    fn generate(&self, pid: &str, tier: Tier, rng: &mut Rng, emit: &mut dyn FnMut(String)) {
+        if pid != "C17" {
+            // joins streams (C02, C07, C19); the C17 generation below is unchanged
+            generate_joins(pid, tier, rng, emit);
+            return;
+        }
         for dx in -2..=2 {
             for dy in -2..=2 {
                 emit(format!("thick.points 1 -1 {} {} 0", 1 + dx, -1 + dy));
@@ -216,7 +221,266 @@ impl Module for M {
                 });
                 fmt_rect(&bb)
             }
+            "thick.polyline" => exec_polyline(&mut t, op, ctx),
             _ => panic!("unknown op {}", op),
         }
+    }
+}
+
+// =============================================================================================
+// Joins: stroked polylines (any width) and stroked triangles — streams `thick.polyline`,
+// `thick.triangle` (properties C02, C07, C19). Model: lean/EG/Model/{LinearEquation, Intersection,
+// LineJoin, ThickSegment, ThickPolyline, ThickTriangle}.lean, driver lean/EG/Driver/Thick.lean.
+//
+//   thick.polyline tx ty n x1 y1 .. xn yn w
+//       `Polyline::new(&[v1..vn]).translate((tx,ty)).into_styled(PrimitiveStyle::with_stroke(On, w))`
+//       -> `bb=<bounding_box()> draw=<call log of draw() on the native-fill target R2> px=<pixels()>`
+//          draw: `-` (no call) | `di:<points digest>` (one draw_iter call) |
+//                `fs:<digest of the fill_solid rectangles as the point list tl,(w,h),tl,(w,h),..>`
+//          px:   points digest of `pixels()` in emission order (format of `m_line::pts_digest`)
+//
+// Oracles (property texts as predicates on the real results; the logic of m_styled.rs):
+//   C02:outside-bbox:thick-polyline      every pixel drawn (draw() and pixels()) lies inside bounding_box()
+//   C01:pixels-vs-draw:thick-polyline    pixels() and draw() paint the same set
+//   C07:translate-field:thick-polyline   picture / non-empty bounding box of the polyline with `translate` = t
+//                                        is the picture / box of the untranslated polyline shifted by t
+//   C07:translate-mut-differs:thick-polyline
+//   C07:join-rounding-tie / C07:draw-not-shifted:thick-polyline / C07:bbox-not-shifted:thick-polyline
+//                                        the polyline with MOVED VERTICES (v + t, translate = 0) paints the shifted
+//                                        picture and has the shifted box. A failure gets the class
+//                                        `C07:join-rounding-tie` only if some join intersection coordinate is an
+//                                        exact rounding tie whose sign differs before and after the move (see
+//                                        `joins_port`); anything else is `draw-not-shifted` / `bbox-not-shifted`.
+//   C19:polyline-width1                  width 1: the picture is the `points()` set and pixels() = points()
+// =============================================================================================
+
+const LAT_X: [i32; 5] = [-4, -1, 0, 2, 6];
+const LAT_Y: [i32; 5] = [-5, -2, 0, 1, 3];
+const OFFS: [(i32, i32); 7] = [(0, 0), (1, 0), (0, -1), (-7, -9), (5, 3), (-3, 4), (64, -33)];
+
+fn poly_op(tr: (i32, i32), vs: &[(i32, i32)], w: u32) -> String {
+    let mut s = format!("thick.polyline {} {} {}", tr.0, tr.1, vs.len());
+    for v in vs {
+        s.push_str(&format!(" {} {}", v.0, v.1));
+    }
+    s.push_str(&format!(" {}", w));
+    s
+}
+
+fn offset_for(pid: &str, k: usize) -> (i32, i32) {
+    if pid == "C07" {
+        OFFS[1 + k % (OFFS.len() - 1)]
+    } else {
+        OFFS[k % OFFS.len()]
+    }
+}
+
+fn generate_joins(pid: &str, tier: Tier, rng: &mut Rng, emit: &mut dyn FnMut(String)) {
+    if !(pid == "C02" || pid == "C07" || pid == "C19") {
+        return;
+    }
+    let quick = tier == Tier::Quick;
+    let widths: Vec<u32> = match (pid, quick) {
+        ("C19", _) => vec![1],
+        (_, true) => vec![2, 3, 4, 5],
+        (_, false) => vec![2, 3, 4, 5, 6, 7, 9],
+    };
+    let (lx, ly): (Vec<i32>, Vec<i32>) = if quick {
+        (LAT_X.to_vec(), LAT_Y.to_vec())
+    } else {
+        (vec![-7, -4, -1, 0, 2, 6, 9], vec![-8, -5, -2, 0, 1, 3, 7])
+    };
+    let mut lat: Vec<(i32, i32)> = Vec::new();
+    for &y in &ly {
+        for &x in &lx {
+            lat.push((x, y));
+        }
+    }
+    let mut k = 0usize;
+    // degenerate vertex counts
+    for &w in &widths {
+        emit(poly_op(offset_for(pid, 0), &[], w));
+        emit(poly_op(offset_for(pid, 1), &[(2, -3)], w));
+    }
+    // all polylines with 2 and 3 vertices on the lattice (repeated vertices, reversals and
+    // colinear triples included)
+    for &a in &lat {
+        for &b in &lat {
+            for &w in &widths {
+                k += 1;
+                emit(poly_op(offset_for(pid, k), &[a, b], w));
+            }
+        }
+    }
+    for &a in &lat {
+        for &b in &lat {
+            for &c in &lat {
+                for &w in &widths {
+                    k += 1;
+                    emit(poly_op(offset_for(pid, k), &[a, b, c], w));
+                }
+            }
+        }
+    }
+    // a sample of 4- and 5-vertex ones: arbitrary, closed-looking (last = first), self-overlapping
+    // (going back over a segment), zigzags
+    let nsample = if quick { 1200 } else { 20_000 };
+    for i in 0..nsample {
+        let n = if i % 4 == 3 { 5 } else { 4 };
+        let mut vs: Vec<(i32, i32)> = (0..n).map(|_| *rng.pick(&lat)).collect();
+        match i % 5 {
+            1 => {
+                let f = vs[0];
+                *vs.last_mut().unwrap() = f; // closed-looking
+            }
+            2 => {
+                vs[2] = vs[0]; // a -> b -> a -> ..
+            }
+            3 => {
+                vs[2] = vs[1]; // repeated vertex in the middle
+            }
+            _ => {}
+        }
+        let w = *rng.pick(&widths);
+        k += 1;
+        emit(poly_op(offset_for(pid, k), &vs, w));
+    }
+    // seeded random polylines within +-60
+    let nrand = if quick { 400 } else { 20_000 };
+    for _ in 0..nrand {
+        let n = rng.range(2, 6) as usize;
+        let vs: Vec<(i32, i32)> = (0..n).map(|_| (rng.range(-60, 60) as i32, rng.range(-60, 60) as i32)).collect();
+        let w = if pid == "C19" { 1 } else { rng.range(2, 9) as u32 };
+        let tr = (rng.range(-80, 80) as i32, rng.range(-80, 80) as i32);
+        emit(poly_op(tr, &vs, w));
+    }
+}
+
+fn fmt_draw_log(log: &[Call]) -> String {
+    if log.is_empty() {
+        return "-".into();
+    }
+    if let [Call::DrawIter(v)] = log {
+        let pts: Vec<Point> = v.iter().map(|((x, y), _)| Point::new(*x, *y)).collect();
+        return format!("di:{}", pts_digest(&pts));
+    }
+    let mut pts = Vec::new();
+    for c in log {
+        match c {
+            Call::FillSolid(r, _) => {
+                pts.push(r.top_left);
+                pts.push(Point::new(r.size.width as i32, r.size.height as i32));
+            }
+            _ => return "mixed".into(),
+        }
+    }
+    format!("fs:{}", pts_digest(&pts))
+}
+
+fn shift_map(m: &PMap, d: Point) -> PMap {
+    m.iter().map(|((y, x), c)| ((y + d.y, x + d.x), *c)).collect()
+}
+
+/// picture (on an unbounded draw_iter-only target) and bounding box of a stroked polyline
+fn poly_picture(vs: &[Point], tr: Point, w: u32) -> (PMap, embedded_graphics::primitives::Rectangle) {
+    let styled = Polyline::new(vs).translate(tr).into_styled(PrimitiveStyle::with_stroke(BinaryColor::On, w));
+    let mut r1 = R1::<BinaryColor>::unbounded();
+    styled.draw(&mut r1).unwrap();
+    (r1.rec.map, styled.bounding_box())
+}
+
+fn map_diff(a: &PMap, b: &PMap) -> usize {
+    a.iter().filter(|(k, v)| b.get(k) != Some(v)).count() + b.iter().filter(|(k, v)| a.get(k) != Some(v)).count()
+}
+
+fn exec_polyline(t: &mut Toks, op: &str, ctx: &mut Ctx) -> String {
+    let tr = t.point();
+    let n = t.usize();
+    let vs: Vec<Point> = (0..n).map(|_| t.point()).collect();
+    let w = t.u32();
+    let style = PrimitiveStyle::with_stroke(BinaryColor::On, w);
+    let styled = Polyline::new(&vs).translate(tr).into_styled(style);
+    let bb = styled.bounding_box();
+    let mut r2 = R2::<BinaryColor>::unbounded();
+    styled.draw(&mut r2).unwrap();
+    let px: Vec<Point> = styled.pixels().map(|Pixel(p, _)| p).collect();
+    ctx.count(&format!("polyline:n={}", n.min(6)));
+    ctx.count(&format!("polyline:w={}", w.min(10)));
+    if !r2.rec.map.is_empty() && (ctx.pid != "C07" || tr != Point::zero()) {
+        ctx.nontrivial(op);
+    }
+
+    // C02
+    let out: Vec<_> = r2.rec.map.keys().filter(|(y, x)| !bb.contains(Point::new(*x, *y))).collect();
+    ctx.expect(out.is_empty(), "C02:outside-bbox:thick-polyline", || {
+        format!("{} of {} px outside bounding_box {} e.g. ({},{})", out.len(), r2.rec.map.len(), fmt_rect(&bb), out[0].1, out[0].0)
+    });
+    let pxset: PMap = px.iter().map(|p| ((p.y, p.x), 1u32)).collect();
+    ctx.expect(pxset == r2.rec.map, "C01:pixels-vs-draw:thick-polyline", || {
+        format!("draw() {} px, pixels() {} px", r2.rec.map.len(), pxset.len())
+    });
+
+    // C07, `translate` field
+    let (m0, bb0) = poly_picture(&vs, Point::zero(), w);
+    let (mt, bbt) = poly_picture(&vs, tr, w);
+    ctx.expect(mt == shift_map(&m0, tr) && mt == r2.rec.map, "C07:translate-field:thick-polyline", || {
+        format!("{} px vs {} px, {} differing entries", mt.len(), m0.len(), map_diff(&mt, &shift_map(&m0, tr)))
+    });
+    let bb_shift_ok = |b0: &embedded_graphics::primitives::Rectangle, bd: &embedded_graphics::primitives::Rectangle| {
+        if !b0.is_zero_sized() {
+            *bd == embedded_graphics::primitives::Rectangle::new(b0.top_left + tr, b0.size)
+        } else {
+            bd.is_zero_sized()
+        }
+    };
+    ctx.expect(bb_shift_ok(&bb0, &bbt) && bbt == bb, "C07:translate-field:thick-polyline", || format!("box {} -> {}", fmt_rect(&bb0), fmt_rect(&bbt)));
+    {
+        let mut pm = Polyline::new(&vs);
+        pm.translate_mut(tr);
+        let sm = pm.into_styled(style);
+        let mut r1 = R1::<BinaryColor>::unbounded();
+        sm.draw(&mut r1).unwrap();
+        ctx.expect(r1.rec.map == mt && sm.bounding_box() == bbt, "C07:translate-mut-differs:thick-polyline", || "translate_mut and translate differ".into());
+    }
+    // C07, moved vertices
+    let moved: Vec<Point> = vs.iter().map(|v| *v + tr).collect();
+    let (mv, bbv) = poly_picture(&moved, Point::zero(), w);
+    let want = shift_map(&m0, tr);
+    let pic_ok = mv == want;
+    let box_ok = bb_shift_ok(&bb0, &bbv);
+    ctx.count(if pic_ok && box_ok { "polyline:moved-vertices-same" } else { "polyline:moved-vertices-differ" });
+    if !(pic_ok && box_ok) {
+        let tie = joins_port::polyline_has_flipping_tie(&vs, w, tr);
+        let class = if tie {
+            "C07:join-rounding-tie"
+        } else if !pic_ok {
+            "C07:draw-not-shifted:thick-polyline"
+        } else {
+            "C07:bbox-not-shifted:thick-polyline"
+        };
+        ctx.expect(false, class, || {
+            format!("moved vertices: {} px vs {} px, {} differing entries; box {} -> {}", mv.len(), want.len(), map_diff(&mv, &want), fmt_rect(&bb0), fmt_rect(&bbv))
+        });
+    } else {
+        ctx.checked();
+    }
+
+    // C19, one-pixel polylines
+    if w == 1 {
+        let pts: Vec<Point> = Polyline::new(&vs).translate(tr).points().collect();
+        let ptset: PMap = pts.iter().map(|p| ((p.y, p.x), 1u32)).collect();
+        ctx.expect(ptset == r2.rec.map && px == pts, "C19:polyline-width1", || {
+            format!("points() {} distinct, draw() {} px, pixels() {} items", ptset.len(), r2.rec.map.len(), px.len())
+        });
+    }
+    format!("bb={} draw={} px={}", fmt_rect(&bb), fmt_draw_log(&r2.rec.log), pts_digest(&px))
+}
+
+/// Port of the private join arithmetic (only what the C07 classifier and the distribution counters
+/// need): placeholder until the port is written.
+mod joins_port {
+    use embedded_graphics::prelude::*;
+    pub fn polyline_has_flipping_tie(_vs: &[Point], _w: u32, _d: Point) -> bool {
+        false
     }
 }
